@@ -220,6 +220,8 @@ pub fn enabled(w: &World, cfg: &Cfg) -> Vec<Op> {
                 add(&mut v, Op::new(K::MExtendPanic, i, 0, c - l + 1, 0));
                 add(&mut v, Op::new(K::MExtendPanic, i, 0, 1, 0));
                 add(&mut v, Op::new(K::MExtendPanic, i, 0, c - l + 1, c - l + 2));
+                add(&mut v, Op::new(K::MPutUnder, i, 0, 1, 0));
+                add(&mut v, Op::new(K::MPutUnder, i, 0, 4, 0));
                 add(&mut v, Op::new(K::MIntoIter, i, 0, 0, 0));
                 if l > 0 {
                     add(&mut v, Op::new(K::MWrite, i, 0, 0, 0));
@@ -262,7 +264,7 @@ pub fn enabled(w: &World, cfg: &Cfg) -> Vec<Op> {
                         }
                     }
                     // put_bytes with counts for which len + cnt is not representable: must panic (a capacity request that overflows)
-                    for a in dedup_sorted(vec![usize::MAX, usize::MAX - l, usize::MAX - l + 1, ISIZE_MAX + 1, ISIZE_MAX - l + 1]) {
+                    for a in dedup_sorted(vec![usize::MAX, usize::MAX - l, (usize::MAX - l).saturating_add(1), ISIZE_MAX + 1, (ISIZE_MAX + 1).saturating_sub(l)]) {
                         if l.checked_add(a).map_or(true, |x| x > ISIZE_MAX) {
                             add(&mut v, Op::new(K::MPutBytes, i, 0, a, 0));
                         }
@@ -377,10 +379,22 @@ impl Explorer {
         let mut vios = std::mem::take(&mut w.vios);
         w.drop_all(&live);
         vios.extend(finish(&mut w));
+        // C13: "after the panic is caught ... all storage is still released exactly once": a memory error or a leak
+        // in a history that contains a caught panic is a violation of C13 as well
+        if w.panics_seen > 0 {
+            let extra: Vec<Vio> = vios
+                .iter()
+                .filter(|v| v.property == "C02" || v.property == "C03")
+                .map(|v| Vio { property: "C13", case: format!("after-panic:{}", v.case), msg: format!("in a history with {} caught panic(s): {}", w.panics_seen, v.msg) })
+                .collect();
+            vios.extend(extra);
+        }
         for v in &vios {
             self.report(v, hist, "");
         }
-        self.last_violated = !vios.is_empty();
+        // only a violation of the property under check ends the exploration of this branch (its counter-example is
+        // complete); violations of other properties are noted and the search goes on below them
+        self.last_violated = vios.iter().any(|v| v.property == self.cfg.property);
         (k, live)
     }
 
@@ -501,7 +515,11 @@ impl Explorer {
             if let Some(sl) = &w.slots[i] {
                 if let H::M(m) = &sl.h {
                     let related = (0..MAXH).any(|j| j != i && w.slots[j].as_ref().map_or(false, |o| o.fam & sl.fam != 0));
-                    if m.is_empty() && !related {
+                    // in the adjacent-arena configuration a boundary address belongs to two blocks: which of them an
+                    // empty zero-capacity handle pins cannot be told from the outside, so it is not probed there
+                    let p = m.as_ptr() as usize;
+                    let owners = oracle::blocks().iter().filter(|b| b.live && p >= b.user && p <= b.user + b.size).count();
+                    if m.is_empty() && !related && owners == 1 {
                         if let Some(bi) = oracle::find_live(m.as_ptr() as usize) {
                             let t = oracle::blocks()[bi].size;
                             if m.capacity() > 0 || t > 0 {
